@@ -80,7 +80,15 @@ def run(chk):
     dispatch_rule(chk, repo, "C10.S.dispatch", FILE, "ternary", set(type_vocabulary(repo)["supported_types"]) - {"x", "bb_input", "bb_output"})
     P = Package(repo)
     fi = repo.func(FILE, "ternary")
-    fams = list(one_gate_circuits(max_arity=3)) + list(deep_circuits()) + list(two_level_circuits(limit=80 if chk.tier == "quick" else None))
+    const_models = []
+    for t, kc in (("and", "0"), ("nand", "0"), ("or", "1"), ("nor", "1"), ("and", "1"), ("or", "0"), ("xor", "1"), ("xnor", "0")):
+        for extra in (["a"], ["a", "b"]):
+            spec = {i: ("input", []) for i in extra}
+            spec["k"] = (kc, [])
+            spec["g"] = (t, extra + ["k"])
+            spec["h"] = ("not", ["g"])
+            const_models.append((f"{t}-with-const{kc}-{len(extra)}", build(spec, outputs=["h"])))
+    fams = const_models + list(one_gate_circuits(max_arity=3)) + list(deep_circuits()) + list(two_level_circuits(limit=80 if chk.tier == "quick" else None))
     n = 0
     for kname, c in fams:
         snap = c._snapshot()
